@@ -241,9 +241,13 @@ func (nt *nativeTwin) raceConfirm(in nativeIn, loc string) (bool, string) {
 	return true, "race at " + loc
 }
 
+func isRaceMsg(msg string) bool {
+	return strings.Contains(msg, "/no-use-after-release") || strings.Contains(msg, "/no-unsynchronised-shared-write")
+}
+
 // raceLoc extracts "file.go:123" from a no-use-after-release message.
 func raceLoc(msg string) (string, bool) {
-	if !strings.Contains(msg, "/no-use-after-release") {
+	if !isRaceMsg(msg) {
 		return "", false
 	}
 	if i := strings.Index(msg, " at="); i >= 0 {
@@ -673,7 +677,7 @@ func checkMain(args []string) int {
 				raceConfirmed[loc]++
 			}
 		}
-		for attempt := 0; attempt < 4 && confirmed < 0 && !strings.Contains(g.recs[0].v.Msg, "/no-use-after-release"); attempt++ {
+		for attempt := 0; attempt < 4 && confirmed < 0 && !isRaceMsg(g.recs[0].v.Msg); attempt++ {
 			// one process per vector: no state carried over between replays
 			outs, err := nt.runSingles(ins)
 			if err != nil {
